@@ -2,6 +2,7 @@ import ExoVerif.Generated.Facts
 import ExoVerif.Props.C01Inv
 import ExoVerif.Props.C17
 import ExoVerif.Model.Oracle
+import ExoVerif.Proofs.OracleNil
 import ExoVerif.Model.NstBitmap
 /-!
 # C11: sites whose safety rests on OTHER code — state invariants, caller contracts, earlier validation
@@ -60,75 +61,135 @@ calculator / aggregator — and what the replay log stores and recache feeds bac
 source of the message or a source rebuilt from a non-empty `kept` list. Model: Model/Oracle.lean (replayed by
 `./check C12..C14`). -/
 
-theorem sanitySources_nonempty (p : Oracle.Params) (srcs : List Oracle.PSource)
-    (h : Oracle.sanitySources p srcs = none) : ∀ ps ∈ srcs, ps.prices ≠ [] := by
-  induction srcs with
-  | nil => intro ps hps; cases hps
-  | cons a rest ih =>
-    intro ps hps
-    unfold Oracle.sanitySources at h
-    by_cases h0 : a.prices.length = 0
-    · simp [h0] at h
-    · have hne : a.prices ≠ [] := by
-        intro he; apply h0; rw [he]; rfl
-      have hrest : Oracle.sanitySources p rest = none := by
-        revert h
-        simp only [h0]
-        repeat' split
-        all_goals first | (intro h; exact h) | (intro h; cases h)
-      rcases List.mem_cons.mp hps with rfl | hm
-      · exact hne
-      · exact ih hrest ps hm
-
-/-- a message that passes sanityCheck has at least one source, and every source at least one price -/
+/-- a message that passes sanityCheck has at least one source, and every source at least one price
+(proof: Proofs/OracleNil.lean) -/
 theorem C11_site_oracle_sanity_nonempty (g : Oracle.Agc) (p : Oracle.Params) (m : Oracle.Msg)
-    (h : g.sanityCheck p m = none) : m.prices ≠ [] ∧ ∀ ps ∈ m.prices, ps.prices ≠ [] := by
-  unfold Oracle.Agc.sanityCheck at h
-  split at h
-  · cases h
-  · split at h
-    · cases h
-    · rename_i _ hl
-      refine ⟨?_, sanitySources_nonempty p m.prices h⟩
-      intro he; apply hl; rw [he]; rfl
+    (h : g.sanityCheck p m = none) : m.prices ≠ [] ∧ ∀ ps ∈ m.prices, ps.prices ≠ [] :=
+  Oracle.sanityCheck_nonempty g p m h
 
 /-- the filter keeps that property: every source it hands to the calculator and to the aggregator (and that the
 replay log stores) has at least one price -/
 theorem C11_site_oracle_sources_nonempty (f : Oracle.Filter) (v : Nat) (srcs : List Oracle.PSource)
     (h : ∀ ps ∈ srcs, ps.prices ≠ []) :
-    (∀ ps ∈ (f.addPSource v srcs).2.1, ps.prices ≠ []) ∧ (∀ ps ∈ (f.addPSource v srcs).2.2, ps.prices ≠ []) := by
-  fun_induction Oracle.Filter.addPSource f v srcs
-  case case1 => simp
-  case case2 ps rest hp _ _ _ _ _ => exact absurd hp (h ps (by simp))
-  case case3 ps rest _ _ _ _ _ _ _ kept _ _ _ c a hx hk tmp ih =>
-    have hr := ih (fun q hq => h q (by simp [hq]))
-    rw [hx] at hr
-    have hkept : tmp.prices ≠ [] := by
-      intro he
-      have : kept = [] := he
-      rw [this] at hk; simp at hk
-    constructor
-    · intro q hq
-      rcases List.mem_cons.mp hq with rfl | hm
-      · exact hkept
-      · exact hr.1 q hm
-    · intro q hq
-      rcases List.mem_cons.mp hq with rfl | hm
-      · exact hkept
-      · exact hr.2 q hm
-  case case4 ps rest _ _ _ _ _ _ _ _ _ _ _ c a hx _ ih =>
-    have hr := ih (fun q hq => h q (by simp [hq]))
-    rw [hx] at hr
-    exact hr
-  case case5 ps rest p0 tl hp _ _ c a hx ih =>
-    have hr := ih (fun q hq => h q (by simp [hq]))
-    rw [hx] at hr
-    constructor
-    · exact hr.1
-    · intro q hq
-      rcases List.mem_cons.mp hq with rfl | hm
-      · exact h _ (by simp)
-      · exact hr.2 q hm
+    (∀ ps ∈ (f.addPSource v srcs).2.1, ps.prices ≠ []) ∧ (∀ ps ∈ (f.addPSource v srcs).2.2, ps.prices ≠ []) :=
+  Oracle.addPSource_nonempty f v srcs h
+
+/-! ## x/oracle `common.BigIntList.Median`: `b[l/2]` (odd length) and `b[l/2-1]`, `b[l/2]` (even length). The only local
+fact is `l == len(b)`; with `l = 0` the even branch reads `b[-1]` (`Gen.siteGuardIndex`: "not locally safe: l=0
+len_b=0"). Median has two callers, `reportPrice.aggregate` (the prices of a report's slots) and
+`aggregator.aggregate` (one value per report), both reached only from `AggregatorContext.FillPrice`.
+State invariant: every report of every aggregator held in memory has at least one slot — `aggregator.fillPrice`
+creates a validator's report together with its first slot, because `worker.do` calls it only with a non-empty
+`list4Aggregator` whose sources all carry a price (sanityCheck, kept by the filter: the two theorems above), slots
+are never removed, and `aggregate()` runs right after `do` filled something in, so the aggregator has a report.
+Model: the nil-aware layer `Model/OracleNil.lean` (`medianN`: `.emptyIndex` exactly for the empty list), replayed line
+by line against the application by `./check C11` / `./check C12` (domain oracle_twods) -/
+
+/-- the index arithmetic: under the site's local facts a NON-EMPTY list keeps both even-branch indexes in range (the
+odd-branch index is `C11_guard_Median_b_l_2`) -/
+theorem C11_site_median_index_in_range (l len_b : Int)
+    (hfacts : ((!((Int.tmod l (2 : Int)) == (1 : Int))) && (l == len_b) && (decide ((0 : Int) ≤ len_b))) = true)
+    (hne : 1 ≤ len_b) :
+    ((decide ((0 : Int) ≤ ((Int.tdiv l (2 : Int)) - (1 : Int)))) && (decide (((Int.tdiv l (2 : Int)) - (1 : Int)) < len_b))) = true ∧
+    ((decide ((0 : Int) ≤ (Int.tdiv l (2 : Int)))) && (decide ((Int.tdiv l (2 : Int)) < len_b))) = true := by
+  simp only [Bool.and_eq_true, Bool.not_eq_true', beq_eq_false_iff_ne, ne_eq, beq_iff_eq, decide_eq_true_eq] at hfacts ⊢
+  obtain ⟨⟨h1, h2⟩, _⟩ := hfacts
+  have hl : 0 ≤ l := by omega
+  rw [Int.tmod_eq_emod_of_nonneg hl] at h1
+  rw [Int.tdiv_eq_ediv_of_nonneg hl]
+  omega
+
+/-- `Median` reports the index panic exactly for the empty list -/
+theorem C11_site_median_empty_iff (l : List (Option Int)) : Oracle.medianN l = .emptyIndex ↔ l.length = 0 := by
+  constructor
+  · intro h; rw [Oracle.medianN_empty l h]; rfl
+  · intro h
+    have : l = [] := List.length_eq_zero_iff.mp h
+    rw [this]; rfl
+
+/-- **no history hands `Median` an empty list**: on a running node with fixed parameters, for EVERY list of blocks
+(any transactions from any sender — malformed, duplicated, with any source lists —, any validator-set updates)
+EndBlock never halts, every report of every in-memory aggregator keeps at least one slot, and no transaction ends in
+the index panic of `Median` -/
+theorem C11_site_median_never_empty (p : Oracle.Params) (bs : List Oracle.Block) (s : Oracle.State)
+    (hpf : Oracle.PF p s) (hne : Oracle.SNE s) :
+    ∃ s' outs, Oracle.runBlocksN s bs = some (s', outs) ∧ Oracle.SNE s' ∧ Oracle.PF p s' ∧
+      (∀ os ∈ outs, ∀ o ∈ os, ∀ i, o ≠ .msg i (.panic "median-empty")) ∧ s'.height = s.height + bs.length :=
+  Oracle.runBlocksN_never_empty_median p bs s hpf hne
+
+/-! ### two deterministic sources: the nil slot (decided on the application by harness/dom_oracle_twods.go)
+
+With two deterministic sources in a feeder's rule a report's slot for the source that is not yet confirmed holds a
+nil *big.Int while `aggregate()` already runs (one confirmed source is enough): `Median` → `sort.Sort` → `Cmp` on nil.
+`aggregate()` is only called from `AggregatorContext.FillPrice`, i.e. inside the message server (DeliverTx) and inside
+the replay of ACCEPTED messages at a restart; the panic is recovered by baseapp.runTx: the transaction is rejected. -/
+
+def nwParams : Oracle.Params :=
+  { maxNonce := 3, thA := 2, thB := 3, maxDetID := 5, maxSizePrices := 100,
+    sources := [{ valid := false, det := false }, { valid := true, det := true }, { valid := true, det := true }],
+    rules := [[], [1, 2]], tokenDecimals := [0, 0],
+    feeders := [default, { tokenID := 1, ruleID := 1, startRoundID := 2, startBaseBlock := 2, interval := 8, endBlock := 0 }] }
+
+def nwAgc : Oracle.Agc :=
+  { params := some nwParams, vals := [(0, 10), (1, 10), (2, 10), (3, 10)], total := 40,
+    rounds := [(1, { basedBlock := 2, nextRoundID := 2, status := .open })], workers := [] }
+
+def nwState : Oracle.State :=
+  { store := { prices := [(1, { next := 2, rounds := [(1, { price := some 1, decimal := 0, ts := -1, roundID := 1 })] })],
+               nonces := [((0, 1), 0), ((1, 1), 0), ((2, 1), 0), ((3, 1), 0)], recentMsgs := [], msgIndex := [],
+               recentParams := [], paramsIndex := [], vuBlock := none, params := nwParams },
+    agc := some nwAgc, cache := some Oracle.Cache.empty, dogfood := [(0, 10), (1, 10), (2, 10), (3, 10)], height := 3, blockTime := 100 }
+
+/-- validator `v` reports (det id 9, price 100) for source 1 and (det id `d2`, price `p2`) for source 2 -/
+def nwTx (v : Nat) (d2 : String) (p2 : Int) : Oracle.Tx :=
+  { size := 300, infos := [{ pubkeyMatches := true, sigValid := true }],
+    msgs := [{ creator := v, feederID := 1, basedBlock := 2, nonce := 1,
+               prices := [{ sourceID := 1, prices := [{ price := 100, decimal := 0, ts := 100, tsKind := 0, detID := "9" }] },
+                          { sourceID := 2, prices := [{ price := p2, decimal := 0, ts := 100, tsKind := 0, detID := d2 }] }] }] }
+
+/-- the hypotheses of `C11_site_median_never_empty` are met by a non-trivial state (the witness state below) -/
+example : Oracle.PF nwParams nwState ∧ Oracle.SNE nwState :=
+  ⟨⟨⟨nwAgc, rfl, rfl⟩, fun c hc hu => by cases hc; simp [Oracle.Cache.empty] at hu⟩,
+   fun g hg => by cases hg; intro kw hkw; cases hkw⟩
+
+/-- the history of the harness scenario `disagree`: three of four equal validators agree on source 1 and quote
+different round ids for source 2. The third report confirms source 1; its transaction ends in the nil dereference of
+`Median` — as a REJECTED transaction: no price is written, EndBlock goes through; what stays behind is process memory
+(the rejected validator's report is counted: reporting power 30 — the mechanism of finding F-09c) -/
+theorem C11_witness_median_nil_two_sources :
+    (Oracle.runTxsN nwState [nwTx 0 "20" 200, nwTx 1 "21" 201, nwTx 2 "22" 202]).2 =
+      [.ok, .ok, .msg 0 (.panic "median-nil")] ∧
+    (Oracle.runTxsN nwState [nwTx 0 "20" 200, nwTx 1 "21" 201, nwTx 2 "22" 202]).1.store.prices = nwState.store.prices ∧
+    (Oracle.endBlock (Oracle.runTxsN nwState [nwTx 0 "20" 200, nwTx 1 "21" 201, nwTx 2 "22" 202]).1 []).isSome = true ∧
+    ((Oracle.runTxsN nwState [nwTx 0 "20" 200, nwTx 1 "21" 201, nwTx 2 "22" 202]).1.agc.bind
+      (fun g => (Oracle.alookup 1 g.workers).bind (·.a))).map (·.reportPower) = some 30 := by
+  refine ⟨by decide, by decide, by decide, by decide⟩
+
+/-- when all of them quote the same round of source 2, both sources are confirmed by the same message and the round
+is finalized (the worker is sealed with a price; the harness scenario records 160 = the median of the reports'
+medians): two deterministic sources work as long as the validators agree on both -/
+theorem C11_witness_two_sources_agreeing :
+    (Oracle.runTxsN nwState [nwTx 0 "20" 200, nwTx 1 "20" 200, nwTx 2 "20" 200]).2 = [.ok, .ok, .ok] ∧
+    ((Oracle.runTxsN nwState [nwTx 0 "20" 200, nwTx 1 "20" 200, nwTx 2 "20" 200]).1.agc.bind
+      (fun g => Oracle.alookup 1 g.workers)).map (fun w => (w.sealed, w.price.isSome)) = some (true, true) := by
+  refine ⟨by decide, by decide⟩
+
+/-- **a panic inside `Median` is a rejected transaction** (C11: "ends as a rejected transaction"): whenever a message
+of a transaction fails — with an error or with a panic recovered by baseapp.runTx, in particular `.panic "median-nil"`
+— the store is exactly what the ante handler left (the sender's oracle nonces): prices, parameters and the replay log
+are those of the state before the transaction -/
+theorem C11_median_nil_panic_is_rejection (s : Oracle.State) (tx : Oracle.Tx) (i : Nat) (e : Oracle.MsgErr)
+    (h : (Oracle.deliverTxN s tx).2 = .msg i e) :
+    ∃ st, Oracle.anteHandle s tx = .ok st ∧ (Oracle.deliverTxN s tx).1.store = st ∧
+      st.prices = s.store.prices ∧ st.params = s.store.params ∧ st.recentMsgs = s.store.recentMsgs ∧
+      st.recentParams = s.store.recentParams :=
+  Oracle.deliverTxN_failed_store s tx i e h
+
+/-- the nil-aware DeliverTx that the driver replays against the application is the DeliverTx of `Model/Oracle.lean`
+(about which the C12–C14 theorems speak) on every transaction that meets no nil slot at aggregation time -/
+theorem C11_median_nil_layer_agrees (s : Oracle.State) (tx : Oracle.Tx) (h : Oracle.AgreeTx s tx) :
+    Oracle.deliverTxN s tx = Oracle.deliverTx s tx :=
+  Oracle.deliverTxN_eq s tx h
 
 /-! ## parallel slices -/
 
